@@ -246,6 +246,8 @@ Lemma slice_mid (prefix enc body suffix : bytes) (off len : N) :
   slice (prefix ++ enc ++ body ++ suffix) off len = Some body.
 Proof.
   intros -> ->. unfold slice.
+  destruct (N.eqb_spec (N.of_nat (length body)) 0) as [Hz|Hnz].
+  { destruct body; [reflexivity|cbn [length] in Hz; lia]. }
   destruct (N.leb_spec (N.of_nat (length prefix + length enc) + N.of_nat (length body))
                        (N.of_nat (length (prefix ++ enc ++ body ++ suffix)))) as [_|Hgt].
   - rewrite !Nat2N.id. f_equal.
